@@ -132,6 +132,15 @@ theorem step_sim_of_core {R : Actor → σ → Prop} (hsup : ∀ s p, next s (.s
   rw [accepts_append next _ (by rw [accepts_append next _ hacc]; exact accepts_supTail next hsup s1 a _)]
   exact accepts_snapTail next hsnap s1 _
 
+/-- `pollMark` appends one event that is neutral for the automaton. -/
+theorem Sim.pollMark {R : Actor → σ → Prop} (hp : ∀ s, next s .polled = .ok s) {s : σ} {a : Actor} {x : M}
+    (h : Sim next R s x) : Sim next R s (pollMark a x) := by
+  unfold Life.pollMark
+  split
+  · obtain ⟨s1, hacc, hr⟩ := h
+    exact ⟨s1, by simp only [evs_append]; rw [accepts_append next _ hacc]; simp [accepts_cons, hp], hr⟩
+  · exact h
+
 end accepts
 
 end Life
